@@ -197,6 +197,13 @@ def _corrupt(module, evs, i):
         if ev.get("mode") in ("gated", "free") and ev.get("digest") not in ("", "ERR", None):
             ev["digest"] = "0" * len(ev["digest"])
             return "digest of a concurrent call's result replaced", ev
+    elif module == "TraceStyleProp":
+        if ok and ev.get("textok") and i % 2 == 0:
+            ev["textok"] = False
+            return "text-preserved flag of a conversion cleared", ev
+        if ok and i % 2 == 1:
+            ev["out"]["run"]["has"] = not ev["out"]["run"]["has"]
+            return "observed inline-style presence of the re-read run flipped", ev
     elif module == "TraceSession":
         # last open of a library history that is certainly inside the scope
         if ev.get("ev") == "open" and ok and ev["cues"] and i > 0 and evs[i - 1].get("ev") == "write" and evs[i - 1].get("res") == "ok":
@@ -868,11 +875,13 @@ def check_writers(pid, tier, seed, scratch, replay):
     import concurrent.futures as cf
     thorough = tier == "thorough"
     rep = Report(pid, tier, seed)
-    rep.rule = ("TLC model-checks order independence of the two map-ranging writers (SSA Format line, WebVTT STYLE block) for every "
-                "style map of <=3 styles x attribute subsets x every pair of map orders, and enumerates the lists to write: 0..2 styles "
+    rep.rule = ("TLC model-checks order independence of the map-ranging writers (SSA Format line and Style lines incl. the writer's own "
+                "table keyed by style ID, WebVTT STYLE block) for every style map of <=3 keys x every assignment of IDs to keys (an ID may "
+                "occur under several keys) x attribute subsets x every map order, and enumerates the lists to write: 0..2 styles "
                 "(quick; attribute subsets of 2, thorough 3 attributes) x CSS line sets x 0/2/3 regions with different attribute sets "
                 "x metadata present/absent; the driver adds seeded lists with 3..6 styles and regions and names the styles after one of three "
-                "schemes (s1..s6; Default / Alt / Caption ...; mixed case around 'default'). Every list is written by each "
+                "schemes (s1..s6; Default / Alt / Caption ...; mixed case around 'default'); the maps are keyed by the entries' own IDs, by "
+                "foreign keys that sort differently, or by foreign keys with the first two styles / regions sharing one ID. Every list is written by each "
                 "of the 5 writers repeatedly in the same process, rebuilt with another map insertion order, written in 2 (thorough 4) "
                 "further processes (fresh hash seeds), under another clock when the metadata supplies the STL dates, and - for some "
                 "lists - in all 120 orders of the 5 writers on one list object. Events carry the digest of the bytes and deep-snapshot "
@@ -900,6 +909,7 @@ def check_writers(pid, tier, seed, scratch, replay):
         vals = validate(ex, scratch, traces, "TraceWriters", "TraceWriters.cfg", per_jvm=6000)
         rep.add_mc("MC_Writers_cur.cfg", mc.result())
     collect(rep, vals, pid, nontrivial=lambda ev: True, key=lambda ev: [ev["list"], ev["fmt"]])
+    rep.extra["events_by_map_keying"] = keying_stats(traces)
     return rep.finish()
 
 
@@ -1070,8 +1080,19 @@ def check_teletext(pid, tier, seed, scratch, replay):
     ))
 
 
+def keying_stats(traces):
+    """C19: events per way the style / region maps are keyed (0 own ID, 1 foreign keys, 2 foreign keys with a shared ID)."""
+    out = {}
+    for t in traces:
+        with open(t) as f:
+            for line in f:
+                k = str(json.loads(line).get("keys", 0))
+                out[k] = out.get(k, 0) + 1
+    return out
+
+
 NEGATIVE_MODELS = [("ScannerMC", "MC_Scanner_pinCR.cfg"), ("ScannerMC", "MC_Scanner_pinERR.cfg"), ("ScannerMC", "MC_ScannerBlocks_pinBLK.cfg"),
-                   ("Writers", "MC_Writers_pin.cfg"), ("Conc", "MC_Conc_leaky.cfg"), ("MC_OpsImpl", "MC_OpsImpl_optimize_pinned.cfg")]
+                   ("Writers", "MC_Writers_pin.cfg"), ("Writers", "MC_Writers_names.cfg"), ("Conc", "MC_Conc_leaky.cfg"), ("MC_OpsImpl", "MC_OpsImpl_optimize_pinned.cfg")]
 
 
 def selftest(pid, tier, seed, scratch, replay):
@@ -1167,7 +1188,14 @@ def check_session(pid, tier, seed, scratch, replay):
                 "the destination format. Every step logs the list in memory / the written file as re-read by the library; "
                 "TraceSession replays the log through Session's machine (each operation against Ops' specification, each write against "
                 "truncation to the destination's resolution, errors against the two sentinel errors incl. their precedence). "
-                "Non-trivial = distinct histories that reached a write.")
+                "The anchored mechanism 'cross-format attribute propagation' has its own module, spec/StyleProp.tla (the propagate* functions, "
+                "the readers that call them and what the five writers make of the result, as functions Read / Write on the observed part of "
+                "StyleAttributes); TLC checks its laws (StylePropMC: a written file is a fixpoint, same-format conversion keeps the look, the "
+                "survival / loss table) and enumerates every (source, destination, look) for 5x5 formats; `drive styleprop` converts a one-cue "
+                "document carrying the look, and TraceStyleProp demands success, one cue, same text and times (C07) and compares the looks "
+                "after the first read and after the read-back with the model (a difference there is impl-model drift, not a violation: "
+                "the statement does not speak about styling). "
+                "Non-trivial = distinct histories that reached a write, and conversions between different formats.")
     rep.assumptions = ["the reference content of a source file is what its format's reader returns (decided by C01-C06 on the same generators)",
                        "instants are compared on a 1/3 ms grid (ms, 1/25 s and 1/30 s frames); a history with an instant off the grid, negative, or "
                        "beyond the model's 32-bit range leaves the scope (counted in scope_exclusions)",
@@ -1191,13 +1219,27 @@ def check_session(pid, tier, seed, scratch, replay):
                                "-n0", str(i * 10000000), "-workers", "8"], timeout=3000)
         return tr
 
+    def run_styleprop():
+        # the anchored mechanism "cross-format attribute propagation": every (source, destination, look) of StyleProp.tla
+        out = scratch.path("styleprop.cases.ndjson")
+        require_ok(tlc(scratch, "GenStyleProp", "GenStyleProp.cfg", env=dict(GEN_OUT=out), heap="1g", timeout=900), "GenStyleProp")
+        tr = scratch.path("trace.styleprop.ndjson")
+        vlib.run_drive(drive, ["styleprop", "-cases", out, "-out", tr], timeout=900)
+        return tr
+
     with cf.ThreadPoolExecutor(max_workers=vlib.NCPU) as ex:
         c = "MC_Session_T.cfg" if thorough else "MC_Session.cfg"
         mc = ex.submit(lambda: require_ok(tlc(scratch, "SessionMC", c, workers=8 if thorough else 6, timeout=3000, heap="8g"), c))
+        mc2 = ex.submit(lambda: require_ok(tlc(scratch, "StylePropMC", "MC_StyleProp.cfg", workers=1, timeout=900, heap="1g"), "MC_StyleProp.cfg"))
+        sp = ex.submit(run_styleprop)
         traces = [f.result() for f in [ex.submit(run_set, i) for i in range(len(sets))]]
         vals = validate(ex, scratch, traces, "TraceSession", "TraceSession.cfg", per_jvm=1500)
+        vals2 = validate(ex, scratch, [sp.result()], "TraceStyleProp", "TraceStyleProp.cfg", per_jvm=1500)
         rep.add_mc(c, mc.result())
+        rep.add_mc("MC_StyleProp.cfg", mc2.result())
     collect(rep, vals, pid, nontrivial=lambda ev: ev["ev"] in ("write", "cli"), key=lambda ev: [ev["n"]])
+    collect(rep, vals2, pid, nontrivial=lambda ev: ev["src"] != ev["dst"], key=lambda ev: ["styleprop", ev["src"], ev["dst"], ev["x"]], is_first=lambda ev: True)
+    rep.extra["attribute_propagation_conversions"] = vlib.count_lines(sp.result())
     per, why = session_scope_stats(traces)
     rep.extra["enumerated_by_tlc"] = sum(vlib.count_lines(scratch.path("sess.%s.ndjson" % n)) for n, _ in sets)
     rep.extra["histories_in_scope"] = sum(a[0] for a in per.values())
